@@ -57,7 +57,7 @@ META = {
    technique="TLA+ Pipeline spec (CountsExact, AtMostOnce, ExactlyOnceIfData) by TLC; traces and counters of the real workers validated",
    text="Model checking of the accounting invariants; conformance by trace validation.", note=""),
  "C14": dict(level="model_checking", ref="6/C14",
-   technique="TLA+ Producer spec (Subsequence, NoDup, ByteExact, BoundedGap) by TLC over all fault scripts; every TLC-generated fault script (sink dies / restarts) and stall scenarios (sink stops reading, then resets or reads on) replayed into producer.RawSocket against real TCP / UDP sinks, sink logs validated by TLC (ProducerTrace.tla); Kafka at the sarama.AsyncProducer boundary (ProducerKafka.tla, scripted library that encodes late)",
+   technique="TLA+ Producer spec (Subsequence, NoDup, ByteExact, BoundedGap) by TLC over all fault scripts; every TLC-generated fault script (sink dies / restarts) and stall scenarios (sink stops reading, then resets or reads on) replayed into producer.RawSocket against real TCP / UDP sinks, sink logs validated by TLC (ProducerTrace.tla); Kafka at the sarama.AsyncProducer boundary (ProducerKafka.tla, scripted library that encodes late); NSQ with the real go-nsq client against a scripted nsqd (ProducerNSQ.tla); NATS with the real nats.go client against an embedded nats-server (ProducerNATS.tla)",
    text="Model checking over fault sequences; replay of every TLC fault script into the real producer.", note=""),
  "C15": dict(level="model_checking", ref="6/C15",
    technique="TLA+ Pipeline shutdown actions (NoSendOnClosed, AckedTemplatesSurvive) by TLC; the real run()+shutdown() with a full queue and stalled workers; end-to-end stop/start cycles of the built binary (idle / steady / burst / sustained traffic, wildcard and IPv4 bind) with signals at seeded offsets",
